@@ -86,3 +86,16 @@ contract(FN, "Node.can_append", {"self": "Node", "other": "Node"}, returns="bool
          ensures=[f"other.content.size != 0 ==> result == replace_ok(self.type, {C}, len({C}), len({C}), other.content.content, 0, len(other.content.content))",
                   "other.content.size == 0 ==> result == (self.type == other.type or compat_idx(self.type.content_match.next, other.type.content_match.next, 0) >= 0)"],
          props=P + ["C12"])
+
+
+# ---- ContentMatch.default_type: the first edge whose type can be generated (no text, no required attributes)
+from pyvc.api import abstract as _abstract  # noqa: E402
+
+_abstract("req_attrs", ["NodeType"], "bool")
+contract(FS, "NodeType.has_required_attrs", {"self": "NodeType"}, returns="bool", defines=["result == req_attrs(self)"],
+         trusted="naming of a pure predicate of the node type (any attribute without default); dictionary iteration is outside the verifier's kinds", props=["C15"])
+contract(FC, "ContentMatch.default_type", {"self": "ContentMatch"}, returns="opt[NodeType]", is_property=True,
+         ensures=["(result is None) == (gen_idx(self.next, 0) < 0)", "result is not None ==> result == self.next[gen_idx(self.next, 0)].type",
+                  "result is not None ==> not result.is_text and not req_attrs(result)"],
+         loops={0: dict(invariant=["gen_idx(self.next, 0) == gen_idx(self.next, _i0)"])},
+         props=["C15"])
